@@ -383,7 +383,7 @@ class ExecBase:
                         for s2, o2 in self.exec_block(h.body, s):
                             s2.handling = prev
                             if isinstance(o2, Raised) and o2.exc.cause is None and o2.exc is not o.exc:
-                                o2 = Raised(VExc(o2.exc.cls, o2.exc.args, o.exc))
+                                o2 = Raised(VExc(o2.exc.cls, o2.exc.args, o.exc, o2.exc.uid, o2.exc.kw))
                             out.append((s2, o2))
                         break
                 if not handled:
@@ -529,6 +529,13 @@ class ExecBase:
     s_AsyncFor = s_For
 
     def for_over(self, node, st, itv):
+        enum = False
+        if isinstance(itv, VConst) and isinstance(itv.py, tuple) and itv.py and itv.py[0] == "enumerate":
+            enum, itv = True, itv.py[1]
+            spec = self.loop_spec(node)
+            if spec is None or spec.invariant is None:
+                raise Unsupported(f"for loop over enumerate(symbolic) at line {node.lineno} has no loop contract")
+            return self.loop_with_invariant(node, st, spec, kind="for", seq=self.as_seq(st, itv), itv=itv, enum=True)
         items = self.concrete_items(st, itv)
         if items is not None:
             # finite concrete spine: unroll completely (exact, not a bound)
@@ -580,7 +587,7 @@ class ExecBase:
                     names.add(n.name)
         return names
 
-    def loop_with_invariant(self, node, st, spec: LoopSpec, kind, seq=None, itv=None):
+    def loop_with_invariant(self, node, st, spec: LoopSpec, kind, seq=None, itv=None, enum=False):
         """Classic three obligations; returns the post-loop states."""
         where = f"loop@{node.lineno}"
         idx0 = z3.IntVal(0) if kind == "for" else None
@@ -654,6 +661,8 @@ class ExecBase:
                 starts = self.assign(node.target, iter_items[id(s)], s)
             if kind == "for":
                 item = spec.elem(s, seq[idx]) if getattr(spec, "elem", None) else unbox(seq[idx])
+                if enum:
+                    item = VTuple((VInt(idx), item))
                 if it_ref is not None:
                     s.deref(it_ref).pos = idx + 1
                 starts = self.assign(node.target, item, s)
